@@ -6,7 +6,7 @@ table and that the mutex is never leaked, over all interleavings of short thread
 model of the pinned Close (early return keeps the mutex) is refuted.  Receiver.tla: call-level
 behaviours with one or more Close calls, blocked Direct / Next calls and wake-ups, replayed on a
 real Receiver (without and with a pubsub topic) under a watchdog."""
-import os, shutil
+import glob, json, os, shutil
 import vlib
 from props import c09
 
@@ -14,24 +14,79 @@ from props import c09
 def run(tier, seed, replay=None):
     ck = vlib.Check("C16", tier, seed, "model_checking")
     binary = vlib.build_harness()
-    # 1. fine-grained model
-    locks = {"2 threads x 2 calls": dict(Threads="{1,2}", MaxCalls=2, FIXED=True),
-             "3 threads x 1 call": dict(Threads="{1,2,3}", MaxCalls=1, FIXED=True)}
+    # 1. fine-grained model: every lock / unlock / channel step, without and with the pubsub watcher
+    base = dict(Threads="{1,2}", MaxCalls=2, FIXED=True, UNLOCK='"code"', Watcher=False, MaxMsgs=0, MaxRestarts=0, Resend=False)
+    locks = {"2 threads x 2 calls": base,
+             "3 threads x 1 call": dict(base, Threads="{1,2,3}", MaxCalls=1),
+             "watcher, 2 threads x 2 calls, 1 message": dict(base, Watcher=True, MaxMsgs=1),
+             "watcher, 3 threads x 1 call, 1 message": dict(base, Watcher=True, MaxMsgs=1, Threads="{1,2,3}", MaxCalls=1),
+             "watcher with re-publication, 2 threads x 2 calls": dict(base, Watcher=True, MaxMsgs=2, Resend=True)}
     if tier == "thorough":
-        locks["3 threads x 2 calls"] = dict(Threads="{1,2,3}", MaxCalls=2, FIXED=True)
-        locks["2 threads x 3 calls"] = dict(Threads="{1,2}", MaxCalls=3, FIXED=True)
+        locks["3 threads x 2 calls"] = dict(base, Threads="{1,2,3}", MaxCalls=2)
+        locks["2 threads x 3 calls"] = dict(base, MaxCalls=3)
+        locks["watcher, 2 threads x 2 calls, 2 messages, 1 subscription restart"] = dict(base, Watcher=True, MaxMsgs=2, MaxRestarts=1)
+        locks["watcher, 3 threads x 1 call, 2 messages, 1 subscription restart"] = dict(base, Watcher=True, MaxMsgs=2, MaxRestarts=1, Threads="{1,2,3}", MaxCalls=1)
     jobs = [(n, dict(module="ReceiverLocks", cfg=("rl%d.cfg" % i, vlib.cfg_text(c, ["MutexReleased", "ResultsOK"], properties=["Termination"])),
-                     workers=max(2, vlib.NCPU // len(locks)), timeout=7000, tag="c16l%d" % i, heap="10g")) for i, (n, c) in enumerate(locks.items())]
-    res = vlib.tlc_parallel(jobs)
+                     workers=max(2, vlib.NCPU // min(len(locks), 4)), timeout=7000, tag="c16l%d" % i, heap="6g")) for i, (n, c) in enumerate(locks.items())]
+    res = {}
+    for k in range(0, len(jobs), 4):
+        res.update(vlib.tlc_parallel(jobs[k:k + 4]))
     for n in locks:
         ck.add_tlc("ReceiverLocks/" + n, res[n], "all interleavings of lock/unlock/channel steps; Termination under WF, ResultsOK, MutexReleased")
         shutil.rmtree(res[n].workdir, ignore_errors=True)
-    pinned = vlib.tlc("ReceiverLocks", ("rlp.cfg", vlib.cfg_text(dict(Threads="{1,2}", MaxCalls=2, FIXED=False), ["MutexReleased"])), workers=4,
-                      timeout=900, tag="c16p")
-    ck.cov["tlc_runs"].append({"name": "pinned Close (FIXED=FALSE) must violate MutexReleased", "violated": pinned.violated})
-    if pinned.violated != "MutexReleased":
-        raise vlib.Infra("model of the pinned Close is no longer refuted")
-    shutil.rmtree(pinned.workdir, ignore_errors=True)
+    for name, c, want in (("pinned Close (FIXED=FALSE: the repeated Close keeps the mutex) must violate MutexReleased", dict(base, FIXED=False), "MutexReleased"),
+                          ("Close with a deferred Unlock (mutex held while waiting for the watcher) must violate Termination",
+                           dict(base, Watcher=True, MaxMsgs=1, UNLOCK='"deferred"', Threads="{1}", MaxCalls=1), "Termination")):
+        v = vlib.tlc("ReceiverLocks", ("rlp.cfg", vlib.cfg_text(c, ["MutexReleased"], properties=["Termination"])), workers=4, timeout=900, tag="c16p")
+        ck.cov["tlc_runs"].append({"name": name, "violated": v.violated})
+        if v.violated != want:
+            raise vlib.Infra("model variant is no longer refuted: %s (got %s)" % (name, v.violated))
+        shutil.rmtree(v.workdir, ignore_errors=True)
+    # 1b. the same actions validate traces of the real Receiver under the gate scheduler (seeded random interleavings)
+    nsc = 240 if tier == "quick" else 6000
+    threads = "{%s}" % ",".join(str(i) for i in range(1, 11))
+    total = 0
+    for conf, watcher, resend in (("plain", False, False), ("hostonly", False, False), ("topic", True, False), ("owntopic", True, True)):
+        wd = os.path.join(vlib.BUILD, "tlc", "rcvgate-%s-%d" % (conf, os.getpid()))
+        shutil.rmtree(wd, ignore_errors=True)
+        os.makedirs(wd)
+        rep = vlib.run_harness(binary, ["c16", "-trace-out", os.path.join(wd, "trace"), "-count", str(nsc), "-seed", str(seed), "-config", conf], timeout=7000)
+        if rep.get("extra", {}).get("read_error") or rep.get("extra", {}).get("shards_failed"):
+            raise vlib.Infra("c16 harness (%s): %s" % (conf, rep.get("extra")))
+        vlib.log("[schedules] %s: %d scenarios, %d inconclusive, %d divergences, %s" % (conf, rep["evaluations"], rep["inconclusive"], len(rep["divergences"]), rep.get("extra")))
+        if rep["evaluations"] and rep["inconclusive"] > 0.2 * rep["evaluations"]:
+            raise vlib.Infra("too many inconclusive scenarios: " + str(rep["extra"].get("infra_example")))
+        ck.add_report(rep)
+        lines = []
+        for f in sorted(glob.glob(os.path.join(wd, "trace.*"))):
+            lines += open(f).read().splitlines()
+        if not lines:
+            if rep["divergences"]:
+                shutil.rmtree(wd, ignore_errors=True)
+                continue
+            raise vlib.Infra("no trace recorded for configuration " + conf)
+        trace = os.path.join(wd, "all.ndjson")
+        open(trace, "w").write("\n".join(lines) + "\n")
+        c = dict(Threads=threads, MaxCalls=1, FIXED=True, UNLOCK='"code"', Watcher=watcher, MaxMsgs=100000, MaxRestarts=0, Resend=resend)
+        r = vlib.tlc("ReceiverLocksTrace", ("t.cfg", vlib.cfg_text(c, ["MutexReleased", "ResultsOK"], spec="TSpec", postcondition="Accepted")), workers=1, timeout=3000,
+                     env_extra={"VERIF_TRACE": trace}, tag="rlt" + conf, heap="8g")
+        ck.cov["tlc_runs"].append({"name": "trace validation " + conf, "events": len(lines), "accepted": r.ok, "wall_s": round(r.wall, 1)})
+        total += len(lines)
+        vlib.log("[trace] %s: %d events, accepted=%s" % (conf, len(lines), r.ok))
+        if not r.ok:
+            start = max(i for i in range(0, min(r.depth, len(lines))) if '"reset"' in lines[i])
+            bad = json.loads(lines[r.depth - 1]) if 0 < r.depth <= len(lines) else {}
+            what = ("invariant %s violated after event %d" % (r.violated, r.depth - 1)) if r.violated else "event %d of the trace is not allowed by the specification" % r.depth
+            ck.divergences.append({"key": "trace-rejected@" + str(bad.get("ev")), "detail": "%s (%s): %s" % (what, conf, lines[r.depth - 1] if r.depth <= len(lines) else "?"),
+                                   "case": lines[start:r.depth]})
+        shutil.rmtree(r.workdir, ignore_errors=True)
+        shutil.rmtree(wd, ignore_errors=True)
+    ck.cov["trace_events_validated"] = total
+    ck.cov["schedules_rule"] = ("seeded random schedules of a real Receiver under the gate scheduler over the yield hooks of receiver.go: 3-8 API calls (Close one or more times, Direct from an "
+                                "allowed / a refused peer, Next, UncacheCid), each in its own goroutine, one goroutine running at a time; four configurations: no host, host without topic, "
+                                "host with a topic on which the harness publishes 0-3 pubsub messages (allowed or not), host with the receiver's own topic and re-publication of direct "
+                                "announcements; the run ends when nothing can move: a call that has not returned by then, or a watcher that is still running, is a hang; TLC validates "
+                                "each trace against the actions of ReceiverLocks.tla with ResultsOK / MutexReleased as invariants")
     # 2. call-level behaviours with closes, on the real Receiver
     if tier == "quick":
         cfgs = {"calls-3closes": (c09.consts(K=64, Cids='{"a","b"}', MaxOps=7, MaxCloses=3, AddrClasses='{"pub+priv"}'), "receiver")}
@@ -54,6 +109,6 @@ def run(tier, seed, replay=None):
     ck.cov["rule"] = ("one behaviour per terminal state of Receiver.tla (<= MaxOps calls, up to 3 Close calls, at most one blocked Direct and one blocked Next); "
                       "each call runs in its own goroutine under a 2 s watchdog; every n-th behaviour also on a Receiver with libp2p host + pubsub topic, "
                       "checking that the watcher goroutine is gone after Close; non-trivial = contains a close, a drop or a blocked call")
-    ck.assumptions += ["the fine-grained interleavings inside calls are decided on the model (ReceiverLocks.tla); the code is bound at call granularity",
+    ck.assumptions += ["the watcher's subscription-restart path (an error from the subscription other than cancellation) is explored on the model only: it cannot be provoked from outside",
                        "at most one blocked sender and one blocked receiver (Go leaves the wake-up order open)"]
     return ck
